@@ -27,8 +27,9 @@ vh::use_jemalloc!();
 const EVENTS: &[&str] = &[
     "L SET k a", "L SET k b", "L APPEND k x", "L DEL k", "L HSET h f v", "L INCR n",
     "R 2 small", "R 2 equal", "R 2 far", "R 3 equal", "R 3 far", "R 2 far-del", "R 2 far-hash",
+    "L HSET h f v g w i x", "L HDEL h g",
 ];
-const POST: &[&str] = &["SET k new", "APPEND k z", "HSET h f new", "INCR n", "DEL k"];
+const POST: &[&str] = &["SET k new", "APPEND k z", "HSET h f new", "INCR n", "DEL k", "HSET h i new", "DEL h"];
 
 #[derive(Clone, Copy, Debug, PartialEq, Eq)]
 struct Sources {
@@ -116,6 +117,11 @@ async fn run_phase1(node: &ReplicatedShardedState<VerifTime>, events: &[usize]) 
             node.execute(cmd).await;
             let ds = node.collect_pending_deltas().await;
             for d in &ds {
+                // a command that changed nothing (e.g. HDEL of a field that does not exist) may re-send the
+                // key's current replicated value unchanged: that is not a new write and carries no new stamp
+                if observed.iter().any(|o| o.key == d.key && vh::persist_kit::project(&o.value) == vh::persist_kit::project(&d.value)) {
+                    continue;
+                }
                 // issued stamps must exceed every stamp of that key the node has seen so far
                 let seen_max = observed.iter().filter(|o| o.key == d.key).flat_map(|o| all_stamps(&o.value)).max();
                 if let Some(m) = seen_max {
@@ -402,7 +408,7 @@ fn main() {
     let coverage = json!({
         "evaluations": n.load(Ordering::Relaxed),
         "distinct_nontrivial": checked,
-        "rule": "every sequence of <=3 events (thorough adds length 4 over 6 core events) over {6 local writes on a string key, a hash key and a counter; 7 remote deltas from replicas 2/3 with stamps small / equal to the local one / far ahead, incl. a remote delete and a remote hash} on a real ReplicatedShardedState, with a crash after the last event and recovery from each of the 7 non-empty subsets of {segments, checkpoint, WAL} (plus the no-crash variant), followed by each of 5 further writes; a case is non-trivial when the post-restart write produced a delta for a key the node had observed, so that all three oracles (stamp strictly greater; a peer holding the observed value serves the new one after merging; a second recovery serves the new one) were evaluated",
+        "rule": "every sequence of <=3 events (thorough adds length 4 over 6 core events) over {8 local writes on a string key, a hash key (single- and three-field HSET, HDEL) and a counter; 7 remote deltas from replicas 2/3 with stamps small / equal to the local one / far ahead, incl. a remote delete and a remote hash} on a real ReplicatedShardedState, with a crash after the last event and recovery from each of the 7 non-empty subsets of {segments, checkpoint, WAL} (plus the no-crash variant), followed by each of 7 further writes; a case is non-trivial when the post-restart write produced a delta for a key the node had observed, so that all three oracles (stamp strictly greater; a peer holding the observed value serves the new one after merging; a second recovery serves the new one) were evaluated",
         "event_sequences": seqs.len(),
         "recovery_source_sets": sources.len(),
         "cases": cases.len(),
